@@ -1396,11 +1396,48 @@ def _resyncs_on_divergence(prog: Program) -> tuple[bool, str]:
         return atom
 
     normal = {d: pruned(cfg, lifted(fl, scene(d, fl))) for d in (1, 2, 3)}
+
+    def escapes(w: list[tuple[int, str]], d: int) -> list[tuple[ast.AST, list[str]]]:
+        """(test, its undecided leaves) of every branch on the witness that decides between re-synchronising and not: the
+        witness takes one arm, the other arm leads to the synchronisation, and the round's timestamps (and `_first_run`)
+        do not decide the test -- so something else does."""
+        at = lifted(fl, scene(d, fl))
+        out: list[tuple[ast.AST, list[str]]] = []
+        for (a, _l), (b, lab) in zip(w, w[1:]):
+            n = cfg.nodes[a]
+            test = n.ast if n.kind == "test" else (n.ast.test if n.kind == "while" else None)  # type: ignore[union-attr]
+            if test is None or lab not in ("true", "false"):
+                continue
+            other = [m for m, l2 in cfg.succ[a] if l2 in ("true", "false") and l2 != lab]
+            if not other or not (set(sync_nodes) & cfg.reachable(other, edge_ok=normal[d])):
+                continue
+            loose: list[str] = []
+
+            def walk(e: ast.AST, a: int = a, loose: list[str] = loose) -> None:
+                if isinstance(e, ast.BoolOp):
+                    for v in e.values:
+                        walk(v)
+                elif isinstance(e, ast.UnaryOp) and isinstance(e.op, ast.Not):
+                    walk(e.operand)
+                elif tri(e, lambda x: at(x, a)) is None:
+                    loose.append(u(e))
+
+            walk(test)
+            if loose:
+                out.append((test, loose))
+        return out
+
     for d in (2, 3):
         w = cfg.path(cfg.entry, rets, avoid=sync_nodes, edge_ok=normal[d])
         if w is not None:
+            esc = escapes(w, d)
+            prog._resync_blame = [t for t, _ls in esc]  # type: ignore[attr-defined]
+            extra = ""
+            if esc:
+                extra = ("; whether the round is re-synchronised is decided by " + ", ".join(f"`{x}`" for _t, ls in esc for x in ls)
+                         + f" (in `{u(esc[0][0])[:90]}`), which is not a fact about the round's timestamps")
             return False, (f"in the steady state a round whose samples carry {d} different timestamps can be evaluated without "
-                           f"the synchronisation routine `{sync}` being awaited: " + " -> ".join(cfg.describe_path(w)[-6:]))
+                           f"the synchronisation routine `{sync}` being awaited: " + " -> ".join(cfg.describe_path(w)[-6:]) + extra)
     if cfg.path(cfg.entry, rets, avoid=sync_nodes, edge_ok=normal[1]) is None:
         return False, "no steady-state path evaluates an aligned round without re-synchronising (the recognised test was not found)"
     return True, f"{raw.qual}: a round whose samples carry different timestamps always awaits `{sync}` before it is evaluated"
